@@ -406,6 +406,45 @@ func (w *World) onChain(tx *wire.MsgTx, l *Ledger) bool {
 	return ok
 }
 
+// ReannounceRelayed hands every transaction of the node's pool that is still valid (relayed
+// earlier, or taken back from a disconnected block - mass-core's TxPool.SyncDetachBlock accepts
+// those again and notifies its listeners; not mined; every input unspent on the best chain or
+// created by a transaction announced before it) to the follower again, parents before children,
+// as the node and its peers re-announcing them would. Returns how many were handed over.
+func (w *World) ReannounceRelayed() int {
+	l := w.Ledger()
+	n := 0
+	announced := map[wire.Hash]bool{}
+	for pass := 0; pass < 3; pass++ {
+		for _, tx := range w.Relayed {
+			h := tx.TxHash()
+			if announced[h] || w.onChain(tx, l) {
+				continue
+			}
+			valid := true
+			for _, in := range tx.TxIn {
+				if c := l.Coins[in.PreviousOutPoint]; c != nil {
+					if c.SpentAt != 0 {
+						valid = false
+					}
+				} else if !announced[in.PreviousOutPoint.Hash] {
+					valid = false
+				}
+			}
+			if !valid {
+				continue
+			}
+			announced[h] = true
+			w.refDeliverTx(tx) // the reference hears the announcement as well
+			if err := w.I.W.VerifProcessTx(tx); err != nil {
+				w.HandlerErrs = append(w.HandlerErrs, "re-announced tx: "+err.Error())
+			}
+			n++
+		}
+	}
+	return n
+}
+
 // RelayContent builds the transaction of relay template t, or ok=false.
 func (w *World) RelayContent(t string, l *Ledger) (*wire.MsgTx, bool) {
 	A := w.Wallets["A"]
